@@ -6,6 +6,7 @@ import (
 	"encoding/json"
 	"flag"
 	"fmt"
+	"golang.org/x/tools/go/ssa"
 	"os"
 	"path/filepath"
 	"runtime/debug"
@@ -61,6 +62,24 @@ func main() {
 			os.Exit(2)
 		}
 		fmt.Printf("anchors.json: %d functions, %d structs\n", len(t.Funcs), len(t.Structs))
+		// reference table of error dispositions (ERR-DISPOSITION)
+		prog.RawID = kit.RawFuncID
+		byID := map[string]*ssa.Function{}
+		for _, f := range prog.OwnFunctions() {
+			byID[kit.FuncID(f)] = f
+		}
+		prog.FuncByID = func(id string) *ssa.Function { return byID[id] }
+		ed := props.ErrDisposition(prog)
+		eb, _ := json.MarshalIndent(ed, "", " ")
+		if werr := os.WriteFile(filepath.Join(*verif, "errdisp.json"), eb, 0o644); werr != nil {
+			fmt.Println(werr)
+			os.Exit(2)
+		}
+		np := 0
+		for _, m := range ed {
+			np += len(m)
+		}
+		fmt.Printf("errdisp.json: %d functions, %d (function, callee) pairs\n", len(ed), np)
 		return
 	}
 	prog, err := prepare(*repo, *verif)
